@@ -15,6 +15,8 @@ use std::panic::{catch_unwind, AssertUnwindSafe};
 pub struct Known {
     pub prop: String,
     pub tag: String,
+    /// optional: the finding only covers this failure mode (the `what` of the mismatch)
+    pub what: Option<String>,
     pub text: String,
 }
 
@@ -48,6 +50,10 @@ pub struct Ctx {
     pub inj_checked: u64,
     /// `--derive`: decode vectors are turned into fixed-point (C07) / one-item (C13) cases
     pub derive: bool,
+    pub scratch: String,
+    /// mutation-fuzz every injected wire this many times (C01)
+    pub fuzz_per_wire: usize,
+    pub rng: crate::gen::Rng,
 }
 
 pub fn hash_pub(j: &J) -> u64 {
@@ -90,6 +96,9 @@ impl Ctx {
             inj: Default::default(),
             inj_checked: 0,
             derive: false,
+            scratch: "/verif/.scratch/child".into(),
+            fuzz_per_wire: 0,
+            rng: crate::gen::Rng(1),
         }
     }
 
@@ -107,7 +116,11 @@ impl Ctx {
             return;
         }
         let tags = Self::tags_of(v);
-        if let Some(k) = self.known.iter().find(|k| k.prop == prop && tags.iter().any(|t| *t == k.tag)) {
+        if let Some(k) = self
+            .known
+            .iter()
+            .find(|k| k.prop == prop && tags.iter().any(|t| *t == k.tag) && k.what.as_ref().map(|w| w == what).unwrap_or(true))
+        {
             let key = format!("property={} {} [{}]", k.prop, k.text, k.tag);
             match self.known_hits.iter_mut().find(|(t, _)| *t == key) {
                 Some((_, n)) => *n += 1,
@@ -737,7 +750,35 @@ pub fn run_session(ctx: &mut Ctx, v: &J) {
     }
 }
 
+fn fuzz_wires_of(ctx: &mut Ctx, v: &J) {
+    if ctx.fuzz_per_wire == 0 {
+        return;
+    }
+    let mut wires: Vec<Vec<u8>> = vec![];
+    if let Some(steps) = v["steps"].as_array() {
+        for e in steps {
+            if e["ev"] == "inject" {
+                if let Ok(b) = bytes_of(&e["bytes"]) {
+                    wires.push(b);
+                }
+            }
+        }
+    }
+    for w in v["wires"].as_array().cloned().unwrap_or_default() {
+        if let Ok(b) = bytes_of(&w) {
+            wires.push(b);
+        }
+    }
+    for w in wires {
+        for _ in 0..ctx.fuzz_per_wire {
+            let m = crate::gen::mutate(&mut ctx.rng, &w, &w);
+            crate::runner6::fuzz_one(ctx, &m, "mutated-spec-wire");
+        }
+    }
+}
+
 pub fn run_vector(ctx: &mut Ctx, v: &J) {
+    fuzz_wires_of(ctx, v);
     ctx.vectors += 1;
     let kind = v["kind"].as_str().unwrap_or("").to_string();
     *ctx.by_kind.entry(kind.clone()).or_insert(0) += 1;
